@@ -1,10 +1,11 @@
 // Command c05 executes circuit-breaker scenarios (C05, C12, C18) against the real cbreaker package.
 //
 //	cfg fb=<ns> rec=<ns> cp=<ns> go=<condition in Go syntax, '~' for a space> qs=<quantile literals, comma separated> [px=… model only]
-//	    [verbose=1] [fbk=custom|default|resp|redir] [fx=0: no OnTripped/OnStandby registered, `effects` -> effects none; fx=fail|failtrip|failstandby: the effect counts, then returns an error]
+//	    [verbose=1] [fbk=custom|default|resp|redir] [fx=0: no OnTripped/OnStandby registered, `effects` -> effects none; fx=fail|failtrip|failstandby: the effect counts, then returns an error; fx=slow: it counts, then stays in flight until `release-fx` -> ok]
+//	finish <id> <code> info=<1xx>: the protected handler sends that informational status first, then <code>
 //	    (the Logger option always carries the parking logger)
 //	at <ns> | adv <ns>            -> ok
-//	start <id>                    -> pass <state> | fallback <state>   (pass: the request is now blocked inside the protected handler)
+//	start <id> [cancelled]        -> pass <state> | fallback <state>   ("cancelled": the request's context is already cancelled)   (pass: the request is now blocked inside the protected handler)
 //	finish <id> <code> [q=v,v,…]  -> done <code> <state>               (the protected handler answers <code>; latency = clock advance since start)
 //	burst <n> <step_ns>           -> burst <run-length outcomes, e.g. f3p1f2> <state>   (n arrivals, the clock advancing step_ns after each;
 //	                                 passed requests stay in flight until the scenario ends)
@@ -32,6 +33,8 @@
 package main
 
 import (
+	"bytes"
+	"context"
 	"fmt"
 	"net/http"
 	"net/http/httptest"
@@ -40,6 +43,7 @@ import (
 	"runtime"
 	"strconv"
 	"strings"
+	"sync"
 	"sync/atomic"
 	"time"
 
@@ -51,13 +55,43 @@ import (
 
 var annotate bool
 
+// recorder is the client's view of one response: like net/http, informational (1xx) headers do not end the header phase.
+type recorder struct {
+	hdr   http.Header
+	Code  int
+	Infos []int
+	Body  *bytes.Buffer
+	wrote bool
+}
+
+func newRecorder() *recorder { return &recorder{hdr: http.Header{}, Code: 200, Body: &bytes.Buffer{}} }
+
+func (r *recorder) Header() http.Header { return r.hdr }
+func (r *recorder) WriteHeader(code int) {
+	if r.wrote {
+		return
+	}
+	if code >= 100 && code <= 199 && code != http.StatusSwitchingProtocols {
+		r.Infos = append(r.Infos, code)
+		return
+	}
+	r.Code, r.wrote = code, true
+}
+func (r *recorder) Write(b []byte) (int, error) {
+	if !r.wrote {
+		r.WriteHeader(http.StatusOK)
+	}
+	return r.Body.Write(b)
+}
+
 type flight struct {
 	parked  chan struct{}
 	unpark  chan struct{}
 	entered chan struct{}
 	release chan int
 	done    chan struct{}
-	rec     *httptest.ResponseRecorder
+	rec     *recorder
+	info    int
 	start   time.Time
 }
 
@@ -65,10 +99,25 @@ type flight struct {
 type effect struct {
 	n    *int64
 	fail bool
+	slow *slowFx // non-nil: the effect counts at entry, then stays in flight until `release-fx` or the end of the scenario
+}
+
+type slowFx struct {
+	mu      sync.Mutex
+	release chan struct{}
+	running int32
 }
 
 func (e effect) Exec() error {
 	atomic.AddInt64(e.n, 1)
+	if e.slow != nil {
+		e.slow.mu.Lock()
+		ch := e.slow.release
+		e.slow.mu.Unlock()
+		atomic.AddInt32(&e.slow.running, 1)
+		<-ch
+		atomic.AddInt32(&e.slow.running, -1)
+	}
 	if e.fail {
 		return fmt.Errorf("side effect acted, then failed")
 	}
@@ -89,6 +138,18 @@ type h struct {
 	parkedID  string
 	fbk       string
 	noFx      bool
+	slow      *slowFx
+}
+
+// releaseFx lets every side effect that is still in flight finish.
+func (s *h) releaseFx() {
+	if s.slow == nil {
+		return
+	}
+	s.slow.mu.Lock()
+	close(s.slow.release)
+	s.slow.release = make(chan struct{})
+	s.slow.mu.Unlock()
 }
 
 const parkProbe = 25 * time.Millisecond
@@ -114,12 +175,25 @@ func (l *parkLogger) Warn(msg string, a ...any) {
 	<-p.unpark
 }
 
-func newFlight() *flight {
-	return &flight{parked: make(chan struct{}, 1), unpark: make(chan struct{}), entered: make(chan struct{}, 1),
-		release: make(chan int, 1), done: make(chan struct{}), rec: httptest.NewRecorder(), start: clock.Now().UTC()}
+// newReq builds the request of `start <id> [cancelled]`; "cancelled": the client has already gone (context cancelled) —
+// the breaker must treat it like any other request.
+func newReq(f []string) *http.Request {
+	req := httptest.NewRequest(http.MethodGet, "http://backend/", nil)
+	req.Header.Set("X-Id", f[1])
+	if len(f) == 3 && f[2] == "cancelled" {
+		ctx, cancel := context.WithCancel(req.Context())
+		cancel()
+		req = req.WithContext(ctx)
+	}
+	return req
 }
 
-func (s *h) isFallback(rec *httptest.ResponseRecorder) bool {
+func newFlight() *flight {
+	return &flight{parked: make(chan struct{}, 1), unpark: make(chan struct{}), entered: make(chan struct{}, 1),
+		release: make(chan int, 1), done: make(chan struct{}), rec: newRecorder(), start: clock.Now().UTC()}
+}
+
+func (s *h) isFallback(rec *recorder) bool {
 	switch s.fbk {
 	case "default":
 		return rec.Code == http.StatusServiceUnavailable && rec.Body.String() == http.StatusText(http.StatusServiceUnavailable)
@@ -179,16 +253,22 @@ func (s *h) state() string {
 // quiesce waits until every goroutine launched by the breaker (side effects) has run to completion:
 // what remains is main, the goroutine of the current op and the blocked in-flight requests.
 func (s *h) quiesce() string {
-	want := 2 + len(s.flights)
 	deadline := time.Now().Add(2 * time.Second)
-	for i := 0; runtime.NumGoroutine() > want; i++ {
+	want := func() int {
+		n := 2 + len(s.flights)
+		if s.slow != nil {
+			n += int(atomic.LoadInt32(&s.slow.running)) // side effects deliberately kept in flight
+		}
+		return n
+	}
+	for i := 0; runtime.NumGoroutine() > want(); i++ {
 		if i < 200 {
 			runtime.Gosched()
 		} else {
 			time.Sleep(20 * time.Microsecond)
 		}
 		if time.Now().After(deadline) {
-			return fmt.Sprintf(" quiesce-timeout goroutines=%d want=%d", runtime.NumGoroutine(), want)
+			return fmt.Sprintf(" quiesce-timeout goroutines=%d want=%d", runtime.NumGoroutine(), want())
 		}
 	}
 	return ""
@@ -197,7 +277,11 @@ func (s *h) quiesce() string {
 func (s *h) next(w http.ResponseWriter, r *http.Request) {
 	fl := s.flights[r.Header.Get("X-Id")]
 	fl.entered <- struct{}{}
-	w.WriteHeader(<-fl.release)
+	code := <-fl.release
+	if fl.info != 0 {
+		w.WriteHeader(fl.info) // an informational response first (e.g. 103 Early Hints); the final code follows
+	}
+	w.WriteHeader(code)
 }
 
 func fallback(w http.ResponseWriter, _ *http.Request) {
@@ -237,10 +321,16 @@ func (s *h) op(f []string, line *string) string {
 	case f[0] == "adv" && len(f) == 2:
 		hx.AdvanceTo(hx.NowNs() + hx.Atoi64(f[1]))
 		return "ok"
+	case f[0] == "release-fx" && len(f) == 1:
+		if s.parkedID != "" {
+			return "bad-op"
+		}
+		s.releaseFx()
+		return "ok" + s.quiesce()
 	case f[0] == "park-warn" && len(f) == 2:
 		atomic.StoreInt32(&s.armed, int32(hx.Atoi(f[1])))
 		return "ok"
-	case f[0] == "start" && len(f) == 2:
+	case f[0] == "start" && (len(f) == 2 || (len(f) == 3 && f[2] == "cancelled")):
 		if _, ok := s.flights[f[1]]; ok || (s.parkedID != "" && atomic.LoadInt32(&s.armed) > 0) {
 			return "bad-op"
 		}
@@ -250,8 +340,7 @@ func (s *h) op(f []string, line *string) string {
 		if s.parkedID != "" {
 			// a second arrival while the first is parked in the breaker's Warn
 			s.parking = nil
-			req := httptest.NewRequest(http.MethodGet, "http://backend/", nil)
-			req.Header.Set("X-Id", f[1])
+			req := newReq(f)
 			go func() {
 				defer close(fl.done)
 				s.cb.ServeHTTP(fl.rec, req)
@@ -278,8 +367,7 @@ func (s *h) op(f []string, line *string) string {
 			s.prevState = s.state()
 			return "unparked " + ra + " then " + rb + " " + s.prevState + q
 		}
-		req := httptest.NewRequest(http.MethodGet, "http://backend/", nil)
-		req.Header.Set("X-Id", f[1])
+		req := newReq(f)
 		go func() {
 			defer close(fl.done)
 			s.cb.ServeHTTP(fl.rec, req)
@@ -365,6 +453,7 @@ func (s *h) op(f []string, line *string) string {
 			return "bad-op"
 		}
 		code := hx.Atoi(f[2])
+		fl.info = hx.KVInt(f, "info", 0)
 		prefix := ""
 		if s.parkedID != "" {
 			// does the parked request hold the breaker's lock?  String() takes the read lock.
@@ -400,7 +489,13 @@ func (s *h) op(f []string, line *string) string {
 		mismatch := ""
 		if orc != "" {
 			if annotate {
-				*line = strings.Join(f[:3], " ") + " q=" + orc
+				keep := []string{}
+				for _, t := range f {
+					if !strings.HasPrefix(t, "q=") {
+						keep = append(keep, t)
+					}
+				}
+				*line = strings.Join(keep, " ") + " q=" + orc
 			} else if given, _ := hx.KV(f, "q"); given != orc {
 				mismatch = " oracle-mismatch=" + orc
 			}
@@ -480,6 +575,7 @@ func (s *h) op(f []string, line *string) string {
 }
 
 func (s *h) Close() {
+	defer func() { s.releaseFx(); s.quiesce() }()
 	if s.parkedID != "" {
 		pf := s.flights[s.parkedID]
 		close(pf.unpark)
@@ -552,9 +648,12 @@ func main() {
 		switch v, _ := hx.KV(cfg, "fx"); v {
 		case "0":
 			s.noFx = true
-		default: // "", "fail", "failtrip", "failstandby": the counters must not depend on what Exec returns
-			opts = append(opts, cbreaker.OnTripped(effect{&s.nTripped, v == "fail" || v == "failtrip"}),
-				cbreaker.OnStandby(effect{&s.nStandby, v == "fail" || v == "failstandby"}))
+		default: // "", "fail", "failtrip", "failstandby", "slow": the counters must not depend on what Exec returns or how long it runs
+			if v == "slow" {
+				s.slow = &slowFx{release: make(chan struct{})}
+			}
+			opts = append(opts, cbreaker.OnTripped(effect{&s.nTripped, v == "fail" || v == "failtrip", s.slow}),
+				cbreaker.OnStandby(effect{&s.nStandby, v == "fail" || v == "failstandby", s.slow}))
 		}
 		cb, err := cbreaker.New(http.HandlerFunc(s.next), expr, opts...)
 		if err != nil {
